@@ -137,7 +137,8 @@ def r06_1(ctx) -> None:
             cfg = cfg_of(fn)
             for L in [n for n in cfg.nodes if n.kind == "loop"]:
                 it = L.ast.iter  # type: ignore[union-attr]
-                if not (isinstance(it, ast.Attribute) and it.attr == "recipients") and not (isinstance(it, ast.Name) and it.id == "recipients"):
+                if not (isinstance(it, ast.Attribute) and it.attr == "recipients") and not (isinstance(it, ast.Name) and it.id == "recipients") \
+                        and not any(x.endswith(".recipients") for x in resolve_all(eng, fn, it)):
                     continue
                 tv = L.ast.target  # type: ignore[union-attr]
                 if not isinstance(tv, ast.Name):
